@@ -120,6 +120,14 @@ theorem C15_closes_iff_reset (P : Params) (b : B) (n : Int) (ok : Bool)
         (afterRequest P b ok n).1.cnt = { cur := b1.cnt.cur, succ := 0, fail := 0 }) := by
   rw [afterRequest_eq]; exact afterCore_closes P _ n ok hc
 
+/-- A back-off lasts what the back-off rule says, counted from the moment it is set: the stored deadline and the one announced
+to the hook are both `now + duration`, to the tick (no rounding). -/
+theorem C15_backoff_deadline_is_now_plus_duration (P : Params) (b : B) :
+    (setBackoff P b).1.expires = b.now + P.backoff b.cnt ∧
+    (setBackoff P b).2 = [.backoff (P.backoff b.cnt) (b.now + P.backoff b.cnt)] ∧
+    (setBackoff P b).1.st = b.st ∧ (setBackoff P b).1.gen = b.gen ∧ (setBackoff P b).1.cnt = b.cnt := by
+  simp [setBackoff]
+
 /-- while open, no success is on the books -/
 def SuccInv (b : B) : Prop := b.st = .opn → b.cnt.succ = 0
 
